@@ -557,6 +557,8 @@ fn prepare(shape: &[Item], kind_variant: usize, explicit: Option<Vec<LeafKind>>)
     let shared = Arc::new(Shared::default());
     let direct = Configuration::new(Block::new(build_direct(&prog, &shared)));
     let dsl = build_dsl(&prog, &shared, Configuration::builder()).build();
+    // every third tree: the DSL configuration taken apart and wrapped again (into_inner / From / into_builder)
+    let dsl = if kind_variant == 1 { Configuration::from(dsl.into_inner()).into_builder().build() } else { dsl };
     let mut ids = Vec::new();
     collect_ids(&prog, &mut ids);
     let loops_in_some_scope_twice = multi_loop_level(&prog);
